@@ -576,6 +576,10 @@ class ExtendedIndexedOperand(Operand):
 
         if not INDEX_REGISTER_REGEX.match(self.right):
             raise OperandTypeError("[{}] is not an index register".format(self.right))
+        if self.left == "" and self.right == "PCR":
+            raise OperandTypeError("[{}] program counter relative addressing needs an offset".format(self.operand_string))
+        if self.left in ["A", "B", "D"] and self.right not in ["X", "Y", "U", "S"]:
+            raise OperandTypeError("[{}] an accumulator offset needs a plain index register".format(self.operand_string))
 
         raw_post_byte = 0x80
         post_byte_choices = []
@@ -715,6 +719,10 @@ class IndexedOperand(Operand):
             )
         if not INDEX_REGISTER_REGEX.match(self.right):
             raise OperandTypeError("[{}] is not an index register".format(self.right))
+        if self.left == "" and self.right == "PCR":
+            raise OperandTypeError("[{}] program counter relative addressing needs an offset".format(self.operand_string))
+        if self.left in ["A", "B", "D"] and self.right not in ["X", "Y", "U", "S"]:
+            raise OperandTypeError("[{}] an accumulator offset needs a plain index register".format(self.operand_string))
 
         raw_post_byte = 0x00
         post_byte_choices = []
